@@ -85,7 +85,15 @@ fn run_case(ctx: &mut Ctx, idx: u64) {
         // E1 fed with the same bytes
         let mut e1 = match byte_engine(&f1, &g, &bytes) {
             Ok(e) => e,
-            Err(pos) => viol!("bytes_accepted_as_tokens_rejected_as_bytes", json!({"rejected_at_byte": pos})),
+            Err(pos) => {
+                // a byte refused because of a resource limit (item / row limits are hit earlier byte by byte) is not a verdict
+                let pre: Vec<u32> = bytes[..pos].iter().map(|&b| b as u32).collect();
+                if resource_stop_on_replay(&f1, &g, &pre) || crate::tp::accepted_with_relaxed_limits(&v1, Some(vec![]), &g, &pre, bytes[pos] as u32) {
+                    ctx.rep.inconclusive("resource_stop");
+                    return;
+                }
+                viol!("bytes_accepted_as_tokens_rejected_as_bytes", json!({"rejected_at_byte": pos}))
+            }
         };
         ctx.rep.inc("states");
         let (sa, sb) = (m.is_stopped(), e1.is_stopped());
